@@ -428,6 +428,40 @@ def restore_links(exe, root, seed, stats):
     a.destroy()
     return [('%s; %s' % (problem, cfg), '%s\n%s\nhistory:\n%s' % (problem, cfg, hist))] if problem else None
 
+def links_only_disk(exe, root, seed, stats):
+    """a data disk that holds links and empty directories but not a single regular file (now, or after its files were
+    removed): after the sync diff exits 0 and list shows every link"""
+    rng = e2e.Rng(seed)
+    a = e2e.Arr(root, exe, ndisks=2 + rng.below(2), nparity=1, ncontent=1, hashsize=16)
+    s = sim.Sim(a, rng.fork(), weird_names=False)
+    lonely = rng.choice(a.disks)
+    for d in a.disks:
+        if d != lonely or rng.chance(1, 2):
+            a.write(d, 'f', rng.bytes(1 + rng.below(3 * a.block)), s.tick())
+    os.symlink('somewhere', a.path(lonely, 'lnk1'))
+    os.makedirs(a.path(lonely, 'dir'), exist_ok=True); os.symlink('../lnk1', a.path(lonely, 'dir/lnk2'))
+    if rng.chance(1, 2): os.makedirs(a.path(lonely, 'emptydir'), exist_ok=True)
+    problem = None
+    cfg = 'links-only-disk ndisks=%d lonely=%s seed=%d' % (a.ndisks, lonely, seed)
+    for rnd in range(3):
+        r = s.sync()
+        if r.rc != 0: break
+        stats['links_only'] = stats.get('links_only', 0) + 1
+        d2 = s.run('diff')
+        if d2.rc != 0:
+            problem = '[links-only-disk] after a successful sync (round %d) diff exits %d (%s)' % (rnd, d2.rc, {k: d2.summary(k) for k in ('added', 'removed', 'updated')}); break
+        lst = a.cmd('list')
+        nl = sum(1 for t in lst.tags if t.startswith('link_') and (':%s:' % lonely) in t)
+        if nl != 2:
+            problem = '[links-only-disk] list shows %d links of disk %s, it holds 2' % (nl, lonely); break
+        if rnd == 0 and os.path.exists(a.path(lonely, 'f')):
+            os.unlink(a.path(lonely, 'f')); s.log('%s/f removed: the disk now holds only links and directories' % lonely)
+        elif rnd == 1:
+            a.write(rng.choice([d for d in a.disks if d != lonely]), 'g', rng.bytes(100), s.tick())
+    hist = '\n'.join(s.history)
+    a.destroy()
+    return [('%s; %s' % (problem, cfg), '%s\n%s\nhistory:\n%s' % (problem, cfg, hist))] if problem else None
+
 def main(tier, seed):
     chk = vlib.Check('C11', 'proof', tier, seed)
     chk.assumptions = ['the classification model covers regular files; hardlinks, links and empty directories are judged by the end-to-end predicates only',
@@ -450,7 +484,7 @@ def main(tier, seed):
         return scenario(exe, os.path.join(vlib.scratch(), 'sc%d' % i), seed * 100000 + 99000 + i, stats)
     ncc = 24 if tier == 'quick' else 240
     with ThreadPoolExecutor(vlib.NCPU) as ex:
-        res = list(ex.map(job, range(n))) + list(ex.map(lambda i: copy_chain(exe, os.path.join(vlib.scratch(), 'cc%d' % i), seed * 100000 + 99500 + i, stats), range(ncc))) + list(ex.map(lambda i: restore_links(exe, os.path.join(vlib.scratch(), 'rl%d' % i), seed * 100000 + 99700 + i, stats), range(ncc)))
+        res = list(ex.map(job, range(n))) + list(ex.map(lambda i: copy_chain(exe, os.path.join(vlib.scratch(), 'cc%d' % i), seed * 100000 + 99500 + i, stats), range(ncc))) + list(ex.map(lambda i: restore_links(exe, os.path.join(vlib.scratch(), 'rl%d' % i), seed * 100000 + 99700 + i, stats), range(ncc))) + list(ex.map(lambda i: links_only_disk(exe, os.path.join(vlib.scratch(), 'lo%d' % i), seed * 100000 + 99800 + i, stats), range(8 if tier == 'quick' else 80)))
     k = 0
     for r in res:
         if r:
